@@ -14,7 +14,7 @@ META = dict(
         quick="siphons/traps: 3 species x 2 reactions, every arc weight a symbolic integer >= 0 (presence = weight > 0), "
               "graph input, plus 3 species x 3 reactions with at most one reactant and one product species per reaction; 3 species x 2 reactions through CRNHyperGraph (coefficients 0..1); firing: 3 places, "
               "unbounded symbolic markings and weights; realizability: 3 species x 2 reactions, coefficients 0..1, "
-              "flows 0..2, and 2 species x 3 reactions with flows 0..1",
+              "flows 0..2, and 2 species x 3 reactions with flows 0..1, also on an analyser object that was used for a variant of the network before",
         thorough="siphons/traps 3x3 and 4x2 on graph input, 3x3 through the hypergraph; realizability 3 species x 3 "
                  "reactions, flows 0..2 (sum <= 5)",
     ),
@@ -176,7 +176,7 @@ def _fires_ok(seq, edges, species):
     return all(v == 0 for v in m.values())
 
 
-def h_realizable(E, ns, nr, cmax, fmax):
+def h_realizable(E, ns, nr, cmax, fmax, reuse=False):
     from synkit.CRN.Hypergraph.hypergraph import CRNHyperGraph
     from synkit.CRN.Path.realizability import PathwayRealizability, hypergraph_to_pr_inputs
 
@@ -191,7 +191,15 @@ def h_realizable(E, ns, nr, cmax, fmax):
         flow[e.id] = int(E.int("f%d" % j, 0, fmax))
     E.assume(sum(flow.values()) <= 5)
     vertices, edges, flow_map = hypergraph_to_pr_inputs(hg, flow=flow)
-    pr = PathwayRealizability().load_hypergraph_and_flow(vertices, edges, flow_map)
+    pr = PathwayRealizability()
+    if reuse:
+        # the analyser object is used for another network first: same ids, same species on every side, every
+        # consumed amount one higher (what a caller looping over variants of a pathway does)
+        edges0 = {eid: ({k: v + 1 for k, v in t.items()}, dict(h_)) for eid, (t, h_) in edges.items()}
+        pr.load_hypergraph_and_flow(vertices, edges0, {k: 1 for k in flow_map})
+        pr.build_petri_net_from_flow()
+        pr.is_realizable()
+    pr.load_hypergraph_and_flow(vertices, edges, flow_map)
     pr.build_petri_net_from_flow()
     ok, cert = pr.is_realizable()
     ref_edges = {e.id: ({k: v for k, v in e.reactants.to_dict().items()}, {k: v for k, v in e.products.to_dict().items()})
@@ -232,6 +240,8 @@ def shards(tier, seed):
         dict(h="realizable", params=dict(ns=2, nr=2, cmax=2, fmax=2)),
         dict(h="realizable", params=dict(ns=3, nr=2, cmax=1, fmax=2)),
         dict(h="realizable", params=dict(ns=2, nr=3, cmax=1, fmax=1)),
+        dict(h="realizable", params=dict(ns=2, nr=2, cmax=1, fmax=2, reuse=True)),
+        dict(h="realizable", params=dict(ns=2, nr=3, cmax=1, fmax=1, reuse=True)),
     ]
     if tier == "thorough":
         sh += [
